@@ -1,0 +1,195 @@
+//go:build verif
+
+package fscache
+
+// Machine-checked contracts for /verif (gowp). Comment-only file: it adds no code.
+
+// ---- C06 / C07: the write-back cache ----
+// the three filespaces never change; the journals are touched by this package only
+//@ type Cache
+//@   field bufferFS immutable
+//@   field bufferRO immutable
+//@   field remoteFS immutable
+//@   private changes.remove
+//@   private changes.removeAll
+//@   private changes.mkdirAll
+//@   private changes.write
+//@ define CInv(c ref) bool = c.bufferFS != nil && c.remoteFS != nil && c.bufferFS != c.remoteFS && c.changes.remove != nil && c.changes.removeAll != nil && c.changes.mkdirAll != nil && c.changes.write != nil && ref(c.changes.remove) != ref(c.changes.removeAll) && ref(c.changes.remove) != ref(c.changes.write) && ref(c.changes.removeAll) != ref(c.changes.write)
+
+// journal updates: exactly one entry is added, everything else is kept
+//@ func (*Cache).changeWrite [C06 C07]
+//@   requires CInv(c)
+//@   modifies M:string:bool, $maplen
+//@   ensures has(c.changes.write, dest) && foralls(s, old(has(c.changes.write, s)) ==> has(c.changes.write, s))
+//@   ensures foralls(s, has(c.changes.remove, s) == old(has(c.changes.remove, s)) && has(c.changes.removeAll, s) == old(has(c.changes.removeAll, s)))
+//@ func (*Cache).changeRemove [C06 C07]
+//@   requires CInv(c)
+//@   modifies M:string:bool, $maplen
+//@   ensures has(c.changes.remove, dest) && foralls(s, old(has(c.changes.remove, s)) ==> has(c.changes.remove, s))
+//@   ensures foralls(s, has(c.changes.write, s) == old(has(c.changes.write, s)) && has(c.changes.removeAll, s) == old(has(c.changes.removeAll, s)))
+//@ func (*Cache).changeRemoveAll [C06 C07]
+//@   requires CInv(c)
+//@   modifies M:string:bool, $maplen
+//@   ensures has(c.changes.removeAll, dest) && foralls(s, old(has(c.changes.removeAll, s)) ==> has(c.changes.removeAll, s))
+//@   ensures foralls(s, has(c.changes.write, s) == old(has(c.changes.write, s)) && has(c.changes.remove, s) == old(has(c.changes.remove, s)))
+//@ func (*Cache).changeMkdirAll [C06 C07]
+//@   requires CInv(c)
+//@   modifies M:string:fs.FileMode, $maplen
+//@   ensures has(c.changes.mkdirAll, dest) && c.changes.mkdirAll[dest] == value && foralls(s, old(has(c.changes.mkdirAll, s)) ==> has(c.changes.mkdirAll, s))
+
+// buffer first: a path present in the buffer is served from the buffer (read-your-writes)
+//@ func (*Cache).srcFS [C06 C07]
+//@   requires CInv(c)
+//@   modifies $none
+//@   only_calls c.remoteFS : ReadDir IsExist IsFile IsDir ReadFile Reader Lstat Filespace
+//@   trace Filespace.IsExist as EX bind inbuf
+//@   at_call Filespace.IsExist requires $recv == c.bufferFS && $0 == cleanPath(p)
+//@   trace_ensures true : ^EX $
+//@   ensures src == cleanPath(p) && srcFS != nil && (srcFS == c.bufferFS || srcFS == c.remoteFS)
+//@   ensures inbuf ==> srcFS == c.bufferFS
+//@   ensures !inbuf ==> srcFS == c.remoteFS
+
+// mutators: the remote is only read; the cleaned path is journalled on every path; the buffer gets the cleaned path
+//@ func (*Cache).MkdirAll [C06 C07]
+//@   requires CInv(c)
+//@   only_calls c.remoteFS : ReadDir IsExist IsFile IsDir ReadFile Reader Lstat Filespace
+//@   ensures has(c.changes.mkdirAll, cleanPath(old(dest))) && c.changes.mkdirAll[cleanPath(old(dest))] == filemode
+//@   at_call Filespace.MkdirAll requires $recv == c.bufferFS && $0 == cleanPath(old(dest)) && $1 == filemode
+//@   trace Filespace.MkdirAll as BUF bind bres
+//@   trace_ensures true : ^BUF $
+//@   ensures result == bres
+//@ func (*Cache).WriteFile [C06 C07]
+//@   requires CInv(c)
+//@   only_calls c.remoteFS : ReadDir IsExist IsFile IsDir ReadFile Reader Lstat Filespace
+//@   ensures has(c.changes.write, old(dest))
+//@   at_call Filespace.WriteFile requires $recv == c.bufferFS && $1 == data && $2 == perm
+//@   trace Filespace.WriteFile as BUF bind bres
+//@   trace_ensures true : ^BUF $
+//@   ensures result == bres
+//@ func (*Cache).Writer [C06 C07]
+//@   requires CInv(c)
+//@   only_calls c.remoteFS : ReadDir IsExist IsFile IsDir ReadFile Reader Lstat Filespace
+//@   ensures has(c.changes.write, cleanPath(old(dest)))
+//@   at_call Filespace.Writer requires $recv == c.bufferFS && $0 == cleanPath(old(dest))
+//@   trace Filespace.Writer as BUF bind bres
+//@   trace_ensures true : ^BUF $
+//@   ensures result0 == bres.0 && result1 == bres.1
+//@ func (*Cache).Remove [C06 C07]
+//@   requires CInv(c)
+//@   only_calls c.remoteFS : ReadDir IsExist IsFile IsDir ReadFile Reader Lstat Filespace
+//@   ensures has(c.changes.remove, cleanPath(old(dest)))
+//@   at_call Filespace.Remove requires $recv == c.bufferFS && $0 == cleanPath(old(dest))
+//@   at_call Filespace.IsExist requires $recv == c.bufferFS && $0 == cleanPath(old(dest))
+//@ func (*Cache).RemoveAll [C06 C07]
+//@   requires CInv(c)
+//@   only_calls c.remoteFS : ReadDir IsExist IsFile IsDir ReadFile Reader Lstat Filespace
+//@   ensures has(c.changes.removeAll, cleanPath(old(dest)))
+//@   at_call Filespace.RemoveAll requires $recv == c.bufferFS && $0 == cleanPath(old(dest))
+//@   at_call Filespace.IsExist requires $recv == c.bufferFS && $0 == cleanPath(old(dest))
+//@ func (*Cache).Copy [C06 C07]
+//@   requires CInv(c)
+//@   only_calls c.remoteFS : ReadDir IsExist IsFile IsDir ReadFile Reader Lstat Filespace
+//@   ensures has(c.changes.write, cleanPath(old(dest)))
+//@   at_call Copier.Do requires $0.DestFS == c.bufferFS && $0.DestPath == cleanPath(old(dest)) && $0.SrcPath == cleanPath(old(src)) && ($0.SrcFS == c.bufferFS || $0.SrcFS == c.remoteFS)
+//@ func (*Cache).CopyDirectory [C06 C07]
+//@   requires CInv(c)
+//@   only_calls c.remoteFS : ReadDir IsExist IsFile IsDir ReadFile Reader Lstat Filespace
+//@   ensures result == nil ==> has(c.changes.write, cleanPath(old(dest)))
+//@   at_call (*Cache).Copy requires $0 == c
+//@ func (*Cache).CopyFile [C06 C07]
+//@   requires CInv(c)
+//@   only_calls c.remoteFS : ReadDir IsExist IsFile IsDir ReadFile Reader Lstat Filespace
+//@   ensures result == nil ==> has(c.changes.write, cleanPath(old(dest)))
+//@   at_call (*Cache).Copy requires $0 == c
+
+// readers: answered buffer-first; nothing is journalled, the remote is only read
+//@ func (*Cache).IsExist [C06 C07]
+//@   requires CInv(c)
+//@   only_calls c.remoteFS : ReadDir IsExist IsFile IsDir ReadFile Reader Lstat Filespace
+//@   trace Filespace.IsExist as Q
+//@   at_call Filespace.IsExist requires ($recv == c.bufferFS || $recv == c.remoteFS) && $0 == cleanPath(old(src))
+//@   trace_ensures result : Q $
+//@   trace_ensures !result : ^Q Q $
+//@ func (*Cache).IsFile [C06 C07]
+//@   requires CInv(c)
+//@   only_calls c.remoteFS : ReadDir IsExist IsFile IsDir ReadFile Reader Lstat Filespace
+//@   trace Filespace.IsFile as Q
+//@   at_call Filespace.IsFile requires ($recv == c.bufferFS || $recv == c.remoteFS) && $0 == cleanPath(old(src))
+//@   trace_ensures result : Q $
+//@   trace_ensures !result : ^Q Q $
+//@ func (*Cache).IsDir [C06 C07]
+//@   requires CInv(c)
+//@   only_calls c.remoteFS : ReadDir IsExist IsFile IsDir ReadFile Reader Lstat Filespace
+//@   trace Filespace.IsDir as Q
+//@   at_call Filespace.IsDir requires ($recv == c.bufferFS || $recv == c.remoteFS) && $0 == cleanPath(old(src))
+//@   trace_ensures result : Q $
+//@   trace_ensures !result : ^Q Q $
+//@ func (*Cache).ReadFile [C06 C07]
+//@   requires CInv(c)
+//@   only_calls c.remoteFS : ReadDir IsExist IsFile IsDir ReadFile Reader Lstat Filespace
+//@   trace (*Cache).srcFS as SRC bind sf
+//@   trace Filespace.ReadFile as RD bind rd
+//@   at_call (*Cache).srcFS requires $0 == c && $1 == old(src)
+//@   at_call Filespace.ReadFile requires $recv == sf.0 && $0 == sf.1
+//@   trace_ensures true : ^SRC RD $
+//@   ensures result0 == rd.0 && result1 == rd.1
+//@ func (*Cache).Reader [C06 C07]
+//@   requires CInv(c)
+//@   only_calls c.remoteFS : ReadDir IsExist IsFile IsDir ReadFile Reader Lstat Filespace
+//@   trace (*Cache).srcFS as SRC bind sf
+//@   trace Filespace.Reader as RD bind rd
+//@   at_call (*Cache).srcFS requires $0 == c && $1 == old(src)
+//@   at_call Filespace.Reader requires $recv == sf.0 && $0 == sf.1
+//@   trace_ensures true : ^SRC RD $
+//@   ensures result0 == rd.0 && result1 == rd.1
+//@ func (*Cache).Lstat [C06 C07]
+//@   requires CInv(c)
+//@   only_calls c.remoteFS : ReadDir IsExist IsFile IsDir ReadFile Reader Lstat Filespace
+//@   trace (*Cache).srcFS as SRC bind sf
+//@   trace Filespace.Lstat as RD bind rd
+//@   at_call (*Cache).srcFS requires $0 == c && $1 == old(src)
+//@   at_call Filespace.Lstat requires $recv == sf.0 && $0 == sf.1
+//@   trace_ensures true : ^SRC RD $
+//@   ensures result0 == rd.0 && result1 == rd.1
+
+// Commit replays the four journals in the order removes, recursive removes, directories,
+// written files; every journal entry is visited; each visit issues exactly the calls below on
+// the remote; the first failure is returned; the buffer is only read
+//@ func (*Cache).Commit [C06]
+//@   requires CInv(c)
+//@   only_calls c.bufferFS : ReadDir IsExist IsFile IsDir ReadFile Reader Lstat Filespace
+//@   trace Filespace.IsFile as ISFILE bind isfile
+//@   trace Filespace.IsExist as ISEXIST bind isexist
+//@   trace Filespace.IsDir as ISDIR bind isdir
+//@   trace Filespace.Remove as RM bind rmerr
+//@   trace Filespace.RemoveAll as RMALL bind rmallerr
+//@   trace Filespace.MkdirAll as MK bind mkerr
+//@   trace StreamCopy as COPY bind cperr
+//@   trace Copier.Do as TREE bind treeerr
+//@   at_call Copier.Do requires $0.SrcFS == c.bufferFS && $0.DestFS == c.remoteFS && $0.SrcPath == src && $0.DestPath == src
+//@   at_call Filespace.Remove requires $recv == c.remoteFS && $0 == src
+//@   at_call Filespace.RemoveAll requires $recv == c.remoteFS && $0 == src
+//@   at_call Filespace.IsExist requires $recv == c.remoteFS && $0 == src
+//@   at_call Filespace.IsDir requires $recv == c.bufferFS && $0 == src
+//@   at_call Filespace.IsFile requires $recv == c.bufferFS && $0 == src
+//@   at_call Filespace.MkdirAll requires $recv == c.remoteFS
+//@   at_call StreamCopy requires $0 == c.bufferFS && $1 == c.remoteFS && $2 == src
+//@   loop 1 invariant CInv(c)
+//@   loop 1 trace_step isexist && rmerr == nil : ^ISEXIST RM $
+//@   loop 1 trace_step !isexist : ^ISEXIST $
+//@   loop 2 invariant CInv(c) && foralls(k, has(c.changes.remove, k) ==> visitedIn(1, k))
+//@   loop 2 trace_step isexist && rmallerr == nil : ^ISEXIST RMALL $
+//@   loop 2 trace_step !isexist : ^ISEXIST $
+//@   loop 3 invariant CInv(c) && foralls(k, has(c.changes.remove, k) ==> visitedIn(1, k)) && foralls(k, has(c.changes.removeAll, k) ==> visitedIn(2, k))
+//@   loop 3 trace_step isdir && mkerr == nil : ^ISDIR MK $
+//@   loop 3 trace_step !isdir : ^ISDIR $
+//@   loop 4 invariant CInv(c) && foralls(k, has(c.changes.remove, k) ==> visitedIn(1, k)) && foralls(k, has(c.changes.removeAll, k) ==> visitedIn(2, k)) && foralls(k, has(c.changes.mkdirAll, k) ==> visitedIn(3, k))
+//@   loop 4 trace_step isfile && mkerr == nil && cperr == nil : ^ISFILE MK COPY $
+//@   loop 4 trace_step !isfile && isdir && treeerr == nil : ^ISFILE ISDIR TREE $
+//@   loop 4 trace_step !isfile && !isdir : ^ISFILE ISDIR $
+//@   ensures err == nil ==> foralls(k, has(c.changes.remove, k) ==> visitedIn(1, k)) && foralls(k, has(c.changes.removeAll, k) ==> visitedIn(2, k)) && foralls(k, has(c.changes.mkdirAll, k) ==> visitedIn(3, k)) && foralls(k, has(c.changes.write, k) ==> visitedIn(4, k))
+//@   ensures rmerr != nil ==> err == rmerr
+//@   ensures rmallerr != nil ==> err == rmallerr
+//@   ensures mkerr != nil ==> err == mkerr
+//@   ensures cperr != nil ==> err == cperr
+//@   ensures treeerr != nil ==> err == treeerr
